@@ -12,6 +12,8 @@ Facts read (each one fails loudly, exit 2, when the declaration it needs changed
   * the script keyword -> PM_* index pairs of the grammar
   * parser-side checks: login script required (F14), time values bounded (F27)
   * serial flags optional (F24), $N before the first expect tolerated (F26), HAVE_TCP_WRAPPERS
+  * whether errno is cleared before strtol / strtod in _strtolong / _strtodouble (F30, not applied)
+  * whether a repeated plug name in a specification's `plug name { .. }` list is refused (F34)
 """
 import sys, os, re, subprocess, tempfile
 
@@ -165,12 +167,37 @@ def main():
     sl = re.search(r"static long _strtolong\(char \*str\)\s*\{(.*?)\n\}", yac, re.S)
     if not sl or "strtol(str, &endptr, 0)" not in sl.group(1):
         die("parse_tab.y: _strtolong changed shape")
+    # errno handling of the two conversions: the range tests read errno; is it cleared before the call?  (F30, not
+    # applied: without `errno = 0;` a stale ERANGE left by an earlier strtod underflow makes the exact values
+    # LONG_MAX / LONG_MIN look like overflows -- environment non-determinism in the model)
+    if not re.search(r"if \(\(val == LONG_MIN \|\| val == LONG_MAX\) && errno == ERANGE\)\s*_errormsg\(", sl.group(1)):
+        die("parse_tab.y: _strtolong range test changed shape")
+    if not re.search(r"if \(\(val == HUGE_VAL \|\| val == -HUGE_VAL\) && errno == ERANGE\)\s*_errormsg\(", sd.group(1)):
+        die("parse_tab.y: _strtodouble range test changed shape")
+    errno_cleared_strtol = re.search(r"\berrno = 0;[^}]*?strtol\(str, &endptr, 0\)", sl.group(1), re.S) is not None
+    errno_cleared_strtod = re.search(r"\berrno = 0;[^}]*?strtod\(str, &endptr\)", sd.group(1), re.S) is not None
     if not re.search(r'if \(n < 1 \|\| n > 65535\)\s*_errormsg\("port number out of range"\);', yac):
         die("parse_tab.y: port range check changed shape")
     if not re.search(r'if \(strstr\(hoststr, "\|&"\) != NULL\)', yac) or not re.search(r"else if \(hoststr\[0\] == '/'\)", yac):
         die("parse_tab.y: _parse_hoststr changed shape")
     if not re.search(r"if \(!_validHostlist\(nodestr\)\)\s*_errormsg", yac):
         die("parse_tab.y: makeNode no longer validates the node list (F16 fix missing?)")
+
+    # ---- plug names of a specification: refused when repeated (F34)?
+    sl_rule = re.search(r"^string_list\s*: string_list TOK_STRING_VAL \{(.*?)\n\}\s*\| TOK_STRING_VAL \{(.*?)\n\}", yac, re.S | re.M)
+    if not sl_rule or "list_append((List)$1, xstrdup($2));" not in sl_rule.group(1):
+        die("parse_tab.y: string_list rule changed shape")
+    if len(re.findall(r"\bstring_list\b", yac)) != 3 or not re.search(r"spec_plug_list\s*: TOK_PLUG_NAME TOK_BEGIN string_list TOK_END", yac):
+        die("parse_tab.y: string_list is no longer used by spec_plug_list only")
+    m = re.search(r'if \(list_find_first\(\(List\)\$1, \(ListFindF\)_str_match, \$2\)\)\s*_errormsg\("duplicate plug name"\);\s*list_append\(', sl_rule.group(1))
+    if m:
+        if not re.search(r"static int _str_match\(char \*s, char \*key\)\s*\{\s*return \(strcmp\(s, key\) == 0\);\s*\}", yac):
+            die("parse_tab.y: _str_match changed shape")
+        plugnames_checked = True
+    elif "duplicate plug name" in yac or "list_find_first" in sl_rule.group(1):
+        die("parse_tab.y: duplicate plug name test changed shape")
+    else:
+        plugnames_checked = False
 
     # ---- serial flags, xregex
     if re.search(r"ser->flags = xstrdup\(flags\);", ser):
@@ -250,6 +277,9 @@ def main():
     o.append("Definition have_tcp_wrappers : bool := %s." % ("true" if have_wrap else "false"))
     o.append("Definition arglist_null_ok : bool := %s.      (* arglist_find tolerates the NULL arglist of login/ping actions (F28) *)" % ("true" if arglist_null_ok else "false"))
     o.append("Definition pipe_empty_refused : bool := %s.   (* pipe_create refuses an empty command line (F29) *)" % ("true" if pipe_empty_refused else "false"))
+    o.append("Definition errno_cleared_strtol : bool := %s.  (* `errno = 0;` precedes strtol() in _strtolong (F30) *)" % ("true" if errno_cleared_strtol else "false"))
+    o.append("Definition errno_cleared_strtod : bool := %s.  (* `errno = 0;` precedes strtod() in _strtodouble (F30) *)" % ("true" if errno_cleared_strtod else "false"))
+    o.append("Definition plugnames_checked : bool := %s.  (* a specification naming a plug twice is refused (F34) *)" % ("true" if plugnames_checked else "false"))
     o.append("Definition pm_ping : Z := %d%%Z." % pm["PM_PING"])
     o.append("")
     o.append("(* keyword tokens of the INITIAL start condition (token names of parse_tab.y) *)")
